@@ -238,8 +238,10 @@ def gen_st(rng):
     lim = [case[1], case[2]]
     for _ in range(rng.choice([1, 3, 6, 10, 20, 40])):
         r = rng.random()
-        if r < 0.6:
+        if r < 0.3:
             case += [1, rng.randrange(2)]
+        elif r < 0.6:
+            case += [4, rng.randrange(4), rng.randrange(2)]      # another handle with its own open token
         elif r < 0.85:
             t = rng.randrange(2)
             q = rng.random()
@@ -265,6 +267,14 @@ def fixed_st(tier):
                 # open up to the limit, one more (pending), raise the limit by one, lower it, open again
                 out.append([server, lim, lim, 6, 6] + [1, t] * (lim + 1) + [2, t, lim + 1, 2, t, lim, 1, t, 1, t])
         out.append([server, 100, 100, 1, 1, 1, 1, 1, 1, 3, 0, 1, 1, 1, 1, 3, 1, 3, 0, 1, 1])
+        # handles parked at the limit, MAX_STREAMS wakes some of them, another handle takes the credit first
+        for t in (0, 1):
+            for lim in (0, 1, 2):
+                pre = [4, 0, t] * lim
+                out.append([server, lim, lim, 6, 6] + pre + [4, 1, t, 2, t, lim + 1, 4, 2, t, 4, 1, t, 4, 1, t])
+                out.append([server, lim, lim, 6, 6] + pre + [4, 1, t, 4, 2, t, 2, t, lim + 1, 4, 3, t, 4, 1, t, 4, 2, t, 2, t, lim + 3, 4, 0, t, 4, 1, t, 4, 2, t, 4, 3, t])
+            # parked on the local concurrency limit, woken by a closed stream
+            out.append([server, 100, 100, 1, 1, 4, 0, 1, 4, 1, 1, 4, 2, 1, 3, 0, 4, 3, 1, 4, 1, 1, 4, 2, 1])
     return out
 
 
@@ -280,9 +290,9 @@ def gen_cs(rng):
     case = [timeout, rtt, rng.randrange(64)]
     for _ in range(rng.choice([1, 3, 8, 20, 60, 150])):
         r = rng.random()
-        if r < 0.45:
-            case += [2]
-        elif r < 0.8:
+        if r < 0.40:
+            case += [2] * rng.choice([1, 1, 1, 2, 3, 5])
+        elif r < 0.55:
             case += [3]
         else:
             case += [1, rng.choice([0, 1, rtt, max(0, rtt - 1), rtt + 1, 5, 50, 500, rng.randrange(0, 3000)])]
@@ -297,6 +307,11 @@ def fixed_cs(tier):
         for k in range(10):
             c += [2] * (1 << k if k < 9 else 300) + [3, 1, rtt, 3, 3]
         out.append(c)
+    # a burst of datagrams, then silence: only timeouts and opportunities (no copy without a new datagram)
+    for rtt in (0, 1, 10, 100):
+        for burst in (1, 2, 3, 4, 7, 8, 20):
+            out.append([99999, rtt, 5] + [2] * burst + [1, rtt, 3, 1, rtt, 3, 1, rtt, 3, 1, 2 * rtt + 1, 3, 1, 500, 3, 1, 500, 3])
+            out.append([99999, rtt, 5, 2, 1, rtt] + [2] * burst + [1, rtt, 1, rtt, 1, rtt, 1, 4 * rtt + 1, 1, 1000, 3])
     out.append([0, 0, 1, 3, 1, 0, 3, 2, 3])
     out.append([5, 10, 1, 3, 2, 1, 4, 3, 1, 1, 3, 2, 1, 10, 3])
     return out
@@ -388,3 +403,24 @@ def monitor12(case, out, exempt_open_notify=False):
                 if rst[k]:
                     return False, exempted
     return True, exempted
+
+
+def cs_copies(case, out):
+    """number of close packet copies reported in a `cs` output (9 s | 1 r s | 2 s | 3 s)"""
+    ops = list(case[3:])
+    i = 0
+    o = 2
+    n = 1 if len(out) > 1 and out[1] == 1 else 0
+    while i < len(ops) and o < len(out):
+        op = ops[i]
+        if op == 1:
+            i += 2
+            n += 1 if out[o + 2] == 1 else 0
+            o += 3
+        elif op in (2, 3):
+            i += 1
+            n += 1 if out[o + 1] == 1 else 0
+            o += 2
+        else:
+            break
+    return n
